@@ -339,7 +339,7 @@ theorem two_field_shift_collides : ¬ preimage_injective_statement := by
   intro h
   let j1 : Justify := ⟨[1, 2], [3], 0, 0, []⟩
   let j2 : Justify := ⟨[1], [2, 3], 0, 0, []⟩
-  let b1 : Block := ⟨0, 0, 0, [], 0, [], [], [], [], 0, 0, 0, some j1, [], [], 0, []⟩
+  let b1 : Block := ⟨0, 0, 0, [], 0, [], [], [], [], 0, 0, 0, some j1, [], [], 0, [], []⟩
   let b2 : Block := { b1 with justify := some j2 }
   have := h b1 b2 (by decide)
   revert this
@@ -395,6 +395,31 @@ theorem verify_binds_body (c : Crypto) (hH : ∀ x, (c.H x).length = hashWidth) 
   apply hne
   apply merkle_binds c.H hashWidth hH txs' b.txids (by omega) h3' h3 hnc
   rw [h4, h4']
+
+/-- The merkle tree carried in the message is outside the id (and so outside the signature):
+anyone can rewrite it. -/
+theorem carried_tree_unhashed (b : Block) (t : List (Option Bytes)) :
+    preimage { b with carried := t } = preimage b := rfl
+
+/-- `VerifyBlock` never consults the carried tree: the verdict is the same whatever array the
+message carries (a `VerifyMerkle` that trusted carried nodes would make this false). -/
+theorem carried_tree_ignored (c : Crypto) (b : Block) (t : List (Option Bytes)) :
+    verifyBlock c { b with carried := t } = verifyBlock c b := rfl
+
+/-- **Coordinated tamper.**  Replacing the body *and* rewriting the carried tree to go with it
+(leaves set to the new txids, inner nodes recomputed or kept, the signed root left on top — any
+array at all) is rejected like the body change alone. -/
+theorem verify_binds_body_whatever_tree (c : Crypto) (hH : ∀ x, (c.H x).length = hashWidth) (b : Block)
+    (txs' : List Bytes) (t' : List (Option Bytes))
+    (hv : verifyBlock c b = true) (hne : txs' ≠ b.txids)
+    (hnc : NoCollisionOn c.H (hashed c.H txs' ++ hashed c.H b.txids)) :
+    verifyBlock c { b with txids := txs', carried := t' } = false :=
+  verify_binds_body c hH b txs' hv hne hnc
+
+/-- the node itself carries the tree of its body -/
+theorem formatted_carries_its_tree (c : Crypto) (txids : List Bytes) (proposer : Bytes) (key : Nat)
+    (ts term num : Int) (preHash : Bytes) (tb : Int) (qc : Option Justify) (failed : List (Bytes × Bytes)) (height : Int) :
+    (formatBlock c txids proposer key ts term num preHash tb qc failed height).carried = merkleTree c.H txids := rfl
 
 /-- The same for a forger who rewrites the whole header but must keep the id (the signed
 message): two verifying blocks with the same id and the same root carry the same transaction
@@ -522,5 +547,22 @@ private def toyC : Crypto where
 set_option maxRecDepth 8000 in
 example : verifyBlock toyC (formatBlock toyC [List.replicate 32 1, List.replicate 32 2, List.replicate 32 3]
     [5, 7] 5 10 1 2 [9] 0 none [([1], [2])] 4) = true := by decide
+
+/-- non-vacuity of `verify_binds_body_whatever_tree`: a formatted block verifies, and with two
+transactions swapped and the carried leaves swapped to match (inner nodes and root kept) it does not -/
+private def toyC3 : Crypto := { toyC with
+  H := fun x =>
+    let h := x.foldl (fun a y => (a * 31 + y.toNat + 1) % 65521) 7
+    UInt8.ofNat (h / 256) :: UInt8.ofNat (h % 256) :: List.replicate 30 0 }
+
+private def toyB : Block := formatBlock toyC3 [List.replicate 32 1, List.replicate 32 2, List.replicate 32 3]
+    [5, 7] 5 10 1 2 [9] 0 none [] 4
+
+set_option maxRecDepth 8000 in
+example : verifyBlock toyC3 toyB = true ∧ toyB.carried.length = 7 ∧
+    verifyBlock toyC3 { toyB with
+      txids := [List.replicate 32 2, List.replicate 32 1, List.replicate 32 3],
+      carried := [some (List.replicate 32 2), some (List.replicate 32 1), some (List.replicate 32 3)] ++ toyB.carried.drop 3 } = false := by
+  decide
 
 end XV.C08
